@@ -41,6 +41,9 @@ type c20Case struct {
 	ViaRPC bool    `json:"via_rpc,omitempty"` // write-control and label requests go through the RPC layer (SourceControl), as a client's do
 	Nchan  int     `json:"nchan"`
 	SubDiv int     `json:"subdiv"`
+	// SavedWriting: the saved configuration holds the WRITING topic of an earlier run that was still writing when it ended
+	// (active, with that session's file names): the new run starts idle and must leave those files alone
+	SavedWriting bool `json:"saved_writing,omitempty"`
 	F0     int64   `json:"f0"`
 	Ops    []c20Op `json:"ops"`
 }
@@ -79,6 +82,7 @@ func c20Gen(t *rapid.T) c20Case {
 	c := c20Case{Nchan: rapid.IntRange(1, 3).Draw(t, "nchan"), SubDiv: rapid.SampledFrom([]int{1, 4, 64, 1000}).Draw(t, "subdiv"),
 		F0: rapid.SampledFrom([]int64{0, 1, 123456, 1 << 31, 1 << 40}).Draw(t, "f0")}
 	c.ViaRPC = rapid.Bool().Draw(t, "viarpc")
+	c.SavedWriting = rapid.IntRange(0, 3).Draw(t, "savedwriting") == 0
 	block := func() c20Op {
 		op := c20Op{Kind: "block", Ext: c20GenExt(t)}
 		if rapid.IntRange(0, 2).Draw(t, "extrel") == 0 {
@@ -298,8 +302,27 @@ func c20Run(c c20Case) (v vVerdict) {
 	}
 	ds.rowColCodes = make([]RowColCode, c.Nchan)
 	viper.Reset()
+	oldFiles := map[string]string{}
+	if c.SavedWriting {
+		oldDir := filepath.Join(root, "20240101", "0007")
+		os.MkdirAll(oldDir, 0o755)
+		pat := filepath.Join(oldDir, "20240101_run0007_%s.%s")
+		for _, k := range []string{"experiment_state.txt", "external_trigger.bin", "data_drop.txt"} {
+			fn := fmt.Sprintf(filepath.Join(oldDir, "20240101_run0007_%s"), k)
+			content := "content of the earlier session: " + k + "\n"
+			os.WriteFile(fn, []byte(content), 0o644)
+			oldFiles[fn] = content
+		}
+		viper.Set("writing", map[string]interface{}{"active": true, "paused": false, "basepath": root, "filenamepattern": pat, "writeljh22": true,
+			"experimentstatefilename": filepath.Join(oldDir, "20240101_run0007_experiment_state.txt"), "experimentstatelabel": "OLD",
+			"externaltriggerfilename": filepath.Join(oldDir, "20240101_run0007_external_trigger.bin"),
+			"datadropfilename":        filepath.Join(oldDir, "20240101_run0007_data_drop.txt")})
+	}
 	if err := ds.PrepareRun(4, 8); err != nil {
 		return vFailf("prepare", "%v", err)
+	}
+	if st := ds.ComputeWritingState(); c.SavedWriting && (st.Active || st.FilenamePattern != "") {
+		return vFailf("restored-as-writing", "the saved configuration says the last run was writing: the new run reports active=%v pattern %q before any START", st.Active, st.FilenamePattern)
 	}
 	defer func() {
 		ds.numberWrittenTicker.Stop()
@@ -490,6 +513,14 @@ func c20Run(c c20Case) (v vVerdict) {
 	}
 	if ds.archiveBlock.active {
 		ds.finishArchiveBlock() // let the request's writer goroutine end
+	}
+	for fn, want := range oldFiles {
+		if b, err := os.ReadFile(fn); err != nil || string(b) != want {
+			return vFailf("earlier-session-file-changed", "the file %s of an earlier session (named in the saved configuration) was changed by this run: now %q (%v)", fn, vTrim(string(b), 200), err)
+		}
+	}
+	if c.SavedWriting {
+		v.Classes = append(v.Classes, "saved-configuration-of-a-writing-run")
 	}
 	if archives > 0 {
 		v.Classes = append(v.Classes, "raw-data-archive-requested")
